@@ -22,13 +22,14 @@ import numpy as np
 from .. import core, sxvm
 
 LEVEL = "exploration"
-RULE = ("constants (F_max,l,Cm,Ct) in {(4,1,1,1),(20,1/4,2/125,1/117000),(1,3,1/2,2)}; (a) target motor forces in {-F/4,0,F/4,F/2,F,5F/4}^4 mapped through the vehicle "
+RULE = ("constants (F_max,l,Cm,Ct) in {(4,1,1,1),(20,1/4,2/125,1/117000),(1,3,1/2,2),(10,1/10,1/2,1)}; (a) target motor forces in {-F/4,0,F/4,F/2,F,5F/4}^4 mapped through the vehicle "
         "geometry G (1296 per constant set, all exact ties included); (b) T in {-5,0,1/1000,F,2F,4F-eps,4F,10F,1e6} x M in {0,+-eps,+-F l/4,+-M_max,+-1e6}^3. "
         "non-trivial = non-zero moment demand; distinct by exact input tuple")
 ASSUMPTIONS = ["vehicle geometry G: motor sign pattern (-,-,-),(+,+,-),(+,-,+),(-,+,+) of roll, pitch, yaw-reaction moments as in the shipped quadrotor model",
                "exact rational arithmetic (Fraction) on the real instruction list; omega judged in double"]
 SIGNS = [(-1, -1, -1), (1, 1, -1), (1, -1, 1), (-1, 1, 1)]
-CONSTS = [(Fr(4), Fr(1), Fr(1), Fr(1)), (Fr(20), Fr(1, 4), Fr(2, 125), Fr(1, 117000)), (Fr(1), Fr(3), Fr(1, 2), Fr(2))]
+CONSTS = [(Fr(4), Fr(1), Fr(1), Fr(1)), (Fr(20), Fr(1, 4), Fr(2, 125), Fr(1, 117000)), (Fr(1), Fr(3), Fr(1, 2), Fr(2)),
+          (Fr(10), Fr(1, 10), Fr(1, 2), Fr(1))]  # last: yaw-dominant geometry (Cm > l)
 
 _F = {}
 
